@@ -343,6 +343,14 @@ def stepCore (line : List String) : Option String :=
           | some (v', r2) => pure ("\"" ++ String.join (got.map byteHex) ++ "\" " ++ showVal ty v' ++ " " ++
               toString (input.length - r2.length))
           | none => pure "fault"
+    | ["bwc", t, v, caps] => do
+        -- round 3b: binary_buffer_writer into a caller buffer of `cap` bytes that held 0xEE
+        let ty ← parseTyStr t
+        let va ← parseValStr ty v
+        let cap ← caps.toNat?
+        if !wfb ty va then pure "illformed" else
+        let w := bufWrite (List.replicate cap 0xEE#8) (encodeA ty va)
+        pure (bytesHex w.data ++ " " ++ toString w.cursor)
     | ["bw", t, v] => do
         let ty ← parseTyStr t
         let va ← parseValStr ty v
